@@ -139,6 +139,9 @@ Next == PickChunk \/ PickCase \/ Exec_ \/ Exhaust \/ NextImage
 EmitObs == Finished /\ PrintT(<<"OBS", i, av, im, Obs, steps>>) /\ FALSE /\ UNCHANGED vars
 NextEmit == Next \/ EmitObs
 
+\* what an error trace shows (cfg: ALIAS Shown): not the memory
+Shown == [i |-> i, av |-> av, im |-> im, status |-> status, steps |-> steps, pc |-> m.pc,
+          a0 |-> IF Len(m.x) = 32 THEN m.x[11] ELSE <<>>, first |-> first]
 -----------------------------------------------------------------------------
 SameGlobals(a, b) == Len(a) = Len(b) /\ \A k \in 1..Len(a) : a[k] = b[k]
 ImagesAgree ==
